@@ -347,6 +347,16 @@ def c07_loop_tally_circ(st0: int, st1: int, st2: int, x0: bool, x1: bool, x2: bo
     return _tally_kind(2, st0, st1, st2, x0, x1, x2, threads)
 
 
+@cond('C07', bounds='N=2 transcripts, each with ANY combination of main-variant / fusion / circRNA failures at once (2^6), '
+      'unbounded threads>=1', encodes=ENC, stubs=STUBS, codes=CODES07, shim=False, timeout=300)
+def c07_loop_tally_mixed(v0: bool, f0: bool, c0: bool, v1: bool, f1: bool, c1: bool, threads: int) -> int:
+    """
+    pre: threads >= 1
+    post: _ >= 0
+    """
+    return _check_tally([False, False], [False, False], [v0, v1], [f0, f1], [c0, c1], threads)
+
+
 # --------------------------------------------------------------------------
 # C04-2: call-site dominance of the validity gate in callVariant
 # --------------------------------------------------------------------------
